@@ -3,6 +3,7 @@ package main
 import (
 	"encoding/json"
 	"fmt"
+	"github.com/woodsbury/jmespath"
 	"sort"
 	"strconv"
 )
@@ -287,6 +288,31 @@ func genC20(tier, out string, sum *Summary) {
 			fail("[x][?@] is " + describe(f2))
 		}
 	}
+	// small-scope enumeration of everything that compares or tests truth: every comparison, !, &&, ||, filter and
+	// contains over every pair of small operands (incl. operands that fail: && and || must not evaluate what
+	// they do not need), on documents of every shape
+	{
+		per, d3 := 2, 600
+		if tier == "thorough" {
+			per, d3 = len(ssDocs), 10000
+		}
+		for _, sc := range smallScope(ssCfg{bools: true, errs: true, funcs: true}, per, d3) {
+			if !testsTruth(sc.e) {
+				continue
+			}
+			e, doc := sc.e, sc.doc
+			text := unparse(e)
+			if hasEnum(e) && orderSensitive(e) {
+				if buildsObjects(e) {
+					continue
+				}
+				doc = bestNarrow(text, doc)
+			}
+			o := search(text, doc)
+			sum.count("small-scope/" + o.Kind)
+			c.emit(e, doc, o, hasEnum(e))
+		}
+	}
 	c.sh.Flush()
 	sum.Cases = c.sh.total
 	sum.Shards = c.sh.files
@@ -372,6 +398,13 @@ func genC18(tier, out string, sum *Summary) {
 			sum.direct("closure", t1, doc, "result does not serialise: "+err.Error())
 		}
 		o2 := search(unparse(e2), o1.Value)
+		// the second stage through a compiled expression (results are acceptable as input to every entry point)
+		if x2, err := jmespath.Compile(unparse(e2)); err == nil {
+			r1 := o1.Value
+			if oc := observe(func() (any, error) { return x2.Search(r1) }); !sameObs(o2, oc, hasEnum(e2)) && !(o2.Kind == "err" && oc.Kind == "err") && !(hasEnum(e2) && orderSensitive(e2)) {
+				sum.direct("requery", unparse(e2), r1, fmt.Sprintf("one-shot search over the first result gives %s, the compiled expression gives %s", describe(o2), describe(oc)))
+			}
+		}
 		if modelled(o1.Value) {
 			c.emit(e2, o1.Value, o2, hasEnum(e2))
 		}
@@ -536,6 +569,25 @@ func genC15(tier, out string, sum *Summary) {
 		}
 		if first.Kind == "val" && first.Value != nil {
 			c.dist[text] = true
+		}
+	}
+	// one-step evaluation and a fresh compilation are the same function: bare words (keywords, literals spelled
+	// as identifiers), and every expression of the random stream again through Compile
+	kdoc := map[string]any{"in": json.Number("1"), "let": json.Number("2"), "a": json.Number("3"), "null": json.Number("4"), "true": json.Number("5"), "k": map[string]any{"in": json.Number("6")}}
+	for _, text := range []string{"in", "let", "a", "null", "true", "false", "k", "k.in", "k.let", "in.a", "let.a", "@.in", "[in]", "{in: a}", "{a: in}", "a.in", "a || in", "abs", "abs.a", "length", "not_null", "$", "@", "*", "in in in", "let $in = a in $in", "let $let = a in $let"} {
+		for _, d := range []any{kdoc, []any{kdoc}, nil} {
+			o1 := search(text, d)
+			o2 := observe(func() (any, error) {
+				x, err := jmespath.Compile(text)
+				if err != nil {
+					return nil, err
+				}
+				return x.Search(d)
+			})
+			sum.count("fresh-compilation")
+			if !(o1.Kind == o2.Kind && (o1.Kind != "val" || sameValue(o1.Value, o2.Value, true)) && (o1.Kind != "err" || sameCats(o1.Cats, o2.Cats))) {
+				sum.direct("determinism", text, d, fmt.Sprintf("one-step Search gives %s, a fresh compilation gives %s", describe(o1), describe(o2)))
+			}
 		}
 	}
 	// order-insensitive aggregates over enumerated members have ONE value, whatever the enumeration order;
@@ -755,4 +807,42 @@ func nearMiss(v any) any {
 		return json.Number(string(v) + "1")
 	}
 	return v
+}
+
+// does the expression compare values or test truth anywhere?
+func testsTruth(e *R) bool {
+	if e == nil {
+		return false
+	}
+	switch e.K {
+	case KCmp, KNot, KAnd, KOr:
+		return true
+	case KProj:
+		if e.PK == PFilter {
+			return true
+		}
+	case KCall:
+		if e.Name == "contains" || e.Name == "not_null" {
+			return true
+		}
+	}
+	if testsTruth(e.L) || testsTruth(e.Rt) || testsTruth(e.Cond) {
+		return true
+	}
+	for _, x := range e.Es {
+		if testsTruth(x) {
+			return true
+		}
+	}
+	for _, kv := range e.KEs {
+		if testsTruth(kv.E) {
+			return true
+		}
+	}
+	for _, a := range e.Args {
+		if testsTruth(a.E) {
+			return true
+		}
+	}
+	return false
 }
